@@ -3,6 +3,7 @@ package props
 import (
 	"fmt"
 	"regexp"
+	"strconv"
 	"strings"
 	"time"
 
@@ -443,6 +444,8 @@ func c04NearList(r *fw.Rand, thorough bool) []c04Miss {
 	return o
 }
 
+var c04NearYM = regexp.MustCompile(`(?i)\b([a-z]{3}) (\d{1,4})$`)
+
 func c04Near(c *fw.Ctx, k int) {
 	// the list is deterministic per seed: use a fixed sub-stream, not the case stream
 	list := c04NearList(fw.NewRand(fw.Mix(c.Seed, 404)), c.Thorough())
@@ -453,10 +456,54 @@ func c04Near(c *fw.Ctx, k int) {
 		c.Count("near-misses", 1)
 		c.Class("near-miss", ms.reason)
 		c.NontrivialStr("near:" + ms.text)
+		// the real days around it are parsed in the same process, before the
+		// near miss for every second one and after it for the others: what was
+		// parsed earlier must not decide what is valid now
+		neighbours := func(when string) {
+			m := c04NearYM.FindStringSubmatch(ms.text)
+			if m == nil {
+				return
+			}
+			mon := 0
+			for q := 1; q <= 12; q++ {
+				if strings.EqualFold(c06Mon[q], m[1]) {
+					mon = q
+				}
+			}
+			y, _ := strconv.Atoi(m[2])
+			if mon == 0 || y < 1 || y > 9999 {
+				return
+			}
+			type dmy struct{ d, m, y int }
+			prevM, prevY, nextM, nextY := mon-1, y, mon+1, y
+			if prevM == 0 {
+				prevM, prevY = 12, y-1
+			}
+			if nextM == 13 {
+				nextM, nextY = 1, y+1
+			}
+			for _, n := range []dmy{{1, mon, y}, {ref.DaysInMonth(y, mon), mon, y}, {1, nextM, nextY}, {2, nextM, nextY}, {ref.DaysInMonth(prevY, prevM), prevM, prevY}, {31, 12, y - 1}, {1, 1, y + 1}} {
+				if n.y < 1 || n.y > 9999 {
+					continue
+				}
+				text := fmt.Sprintf("%d %s %d", n.d, c06Mon[n.m], n.y)
+				dr := gedcom.NewDateRangeWithString(text)
+				c.Count("valid-neighbours-of-near-misses", 1)
+				if s := dr.StartDate(); !dr.IsValid() || s.Day != n.d || int(s.Month) != n.m || s.Year != n.y {
+					c.Violation("valid-neighbour-of-near-miss-wrong:"+ms.reason+":"+when, fmt.Sprintf("%q parsed %s the near miss %q in the same process: valid=%v start %+v", text, when, ms.text, dr.IsValid(), s), map[string]string{"text": text, "near_miss": ms.text, "order": when})
+				}
+			}
+		}
+		if j%2 == 0 {
+			neighbours("before")
+		}
 		dr := gedcom.NewDateRangeWithString(ms.text)
 		node := gedcom.NewDateNode(ms.text)
 		if dr.IsValid() || node.IsValid() {
 			c.Violation("near-miss-accepted:"+ms.reason, fmt.Sprintf("%q (%s) must be invalid but parsed as %v .. %v (IsValid range=%v node=%v)", ms.text, ms.reason, dr.StartDate(), dr.EndDate(), dr.IsValid(), node.IsValid()), map[string]string{"text": ms.text})
+		}
+		if j%2 == 1 {
+			neighbours("after")
 		}
 		if c.WantSample("near-miss") {
 			c.Sample("near-miss", map[string]string{"text": ms.text, "must be invalid because": ms.reason})
